@@ -1,5 +1,5 @@
 (* C07 Serving is total: any request runs exactly one chain, never a routing panic. *)
-Require Import Base Regex Route Tree Router RouterProofs.
+Require Import Base Regex Route Tree Router RouterProofs TreeIdx.
 
 (* The model of ServeHTTP is a total function from (router state, method, path, headers) to exactly
    one outcome - the chosen route's chain or the not-found chain - for every byte string as path and
@@ -15,9 +15,28 @@ Proof. exact serve_unknown_method. Qed.
 Theorem C07_path_has_segments : forall path, segs_of path <> [].
 Proof. exact segs_of_nonempty. Qed.
 
-(* Not modelled: the byte-index arithmetic of tree.go (path[next:], path[next-1:]) - the model works on
-   the list of segments; that no slice expression goes out of range is observed on the implementation
-   (recover() around ServeHTTP over hostile paths), not proved.  This check is therefore partial. *)
+(* NEVER A ROUTING PANIC.  TreeIdx.v writes the matcher as tree.go / leaf.go do - over the request path and
+   a byte index: i := Index(path[next:], "/"); matchLeaf(path[next:]); matchSubtree(path, path[next:next+i],
+   next+i+1); the match-all loop extending segment by "/" + path[next:next+i]; the match-all leaf counting
+   "/" in path[next-1:] - with every slice expression able to go out of range ([slice] returns None, the
+   result is [Panic]).  For every tree whatsoever and every byte string as path it never does, and the
+   answer is the one of the segment-level matcher on the split path, which all other theorems are about. *)
+Theorem C07_matcher_never_panics : forall hdr_ok t path, match_idx hdr_ok t path <> Panic.
+Proof. exact match_idx_no_panic. Qed.
+
+Theorem C07_index_matcher_refines : forall hdr_ok t path,
+  match_idx hdr_ok t path = Ok (mtree hdr_ok t (segs_of path)).
+Proof. exact match_idx_refines. Qed.
+
+(* at any position inside the path as well (the recursion of matchNextSegment) *)
+Theorem C07_index_matcher_refines_at : forall hdr_ok t path next, next <= length path ->
+  mnext_idx hdr_ok t path next = Ok (mtree hdr_ok t (split_slash [] (skipn next path))).
+Proof. exact mnext_idx_refines. Qed.
+
+(* Modelled rather than verified: that TreeIdx.v transcribes the index arithmetic of the Go code faithfully
+   (it agrees with it on every generated request, including the hostile stream, and the implementation is run
+   under recover()); type assertions and the regex engine are outside it. *)
 
 Redirect "assum/C07.1" Print Assumptions C07_one_outcome.
 Redirect "assum/C07.2" Print Assumptions C07_path_has_segments.
+Redirect "assum/C07.3" Print Assumptions C07_matcher_never_panics.
